@@ -5,7 +5,7 @@ set -u
 seed=$(readlink -f $1); sub=${2:-.}
 export GOFLAGS=-mod=mod GOPROXY=off GOSUMDB=off GOTOOLCHAIN=local
 wt=/tmp/wt-verify-$$
-git -C /repo worktree add --detach -q $wt HEAD || exit 2
+git -C /repo worktree add --detach -q $wt ${SEED_BASE:-HEAD} || exit 2
 trap 'git -C /repo worktree remove --force $wt; git -C /repo worktree prune' EXIT
 cd $wt
 cp $seed/demo_test.go $sub/zz_seed_demo_test.go
